@@ -119,10 +119,14 @@ class Node(object):
             if nsmap == node.nsmap:
                 node.nsmap = nsmap
             else:
+                copied = False
                 for prefix in nsmap:
-                    if prefix not in node.nsmap:
-                        node.nsmap = copy.deepcopy(node.nsmap)
-                    node.nsmap[prefix] = nsmap[prefix]
+                    if prefix not in node.nsmap or node.nsmap[prefix] != nsmap[prefix]:
+                        if not copied:
+                            # copy on write: the dict may be shared with nodes outside this subtree
+                            node.nsmap = copy.deepcopy(node.nsmap)
+                            copied = True
+                        node.nsmap[prefix] = nsmap[prefix]
 
         for child in node.children:
             if id(child.nsmap) == nsmap_id:
